@@ -50,6 +50,8 @@ def cases(tier, seed):
         o = opts(mode, rng.choice([0, 1, 2]), rng.choice([0, 0, 1, 2, 3, 5]), rng.choice([0, 0, 2, 5, 12]), False, black, x0,
                  F_h("m3@48", 3) != 0)
         case = {"table": table, "px": px, "o": o, "chunk": rng.choice([0, 2, 5, 10 ** 6]), "store": F_h("m5@49", 5) == 0, "witness": False}
+        if F_h("oneiter", 6) == 3 and not x0 and mode != "trans":
+            case["o"]["max_iters"] = 1          # one iteration only: which scopes report convergence is decidable (flat or not)
         if F_h("m10@50", 10) in (4, 5):
             case["at"] = ["/resolutions/1000", "/a/b"][F_h("m2@51", 2)]      # a level of a multires file / any nested group
         if F_h("m7@52", 7) == 6:
